@@ -14,7 +14,10 @@ let zi n = Z.to_int (z_of_n n)
 let parse_header h =
   match h with
   | threads :: limit :: cnum :: csize :: cchunks :: nitems :: rest ->
-    let cfg = { c_threads = n_of_tok threads; c_maxtasks = nz 128; c_limit = n_of_tok limit;
+    (* "<threads>" or "<threads>:<MaxSenderTasks>" *)
+    let threads, maxtasks = (match String.split_on_char ':' threads with
+        | [t; m] -> t, int_of_string m | _ -> threads, 128) in
+    let cfg = { c_threads = n_of_tok threads; c_maxtasks = nz maxtasks; c_limit = n_of_tok limit;
                 c_maxnum = n_of_tok cnum; c_maxsize = n_of_tok csize; c_maxchunks = n_of_tok cchunks;
                 c_membase = nz 1 } in
     let rec items k l = if k = 0 then [] else match l with
@@ -37,7 +40,8 @@ let well_formed hops =
   let rec go held n = function
     | [] -> true
     | HHold :: r -> if held then go held n r else go true 0 r
-    | (HFlush | HUnreg _) :: r -> go false 0 r
+    | HFlush :: r -> go false 0 r
+    | HUnreg _ :: r -> go held n r
     | HReq _ :: r -> if held then (n < 6 && go held (n + 1) r) else go held n r
   in go false 0 hops
 
@@ -53,10 +57,18 @@ let sops_of hops =
 let keys_tok items =
   if items = [] then "-" else String.concat "." (List.map (fun x -> tok_of_n x.it_key) items)
 
-let obs_of_model cfg db hops =
+let small cfg = zi cfg.c_maxtasks < 128
+
+let obs_of_model cfg db hops obs =
   let ((qs, _), trace) = hhistory v_fixed cfg db hops in
+  (* with a small MaxSenderTasks the pending size is sampled at an arbitrary moment (token p):
+     judged by the specification only; the model side copies the implementation's samples *)
+  let psamples = ref (List.filter (fun t -> t.[0] = 'p') obs) in
+  let next_p () = match !psamples with t :: r -> psamples := r; t | [] -> "p?" in
   let rec qtoks hs qs = match hs, qs with
-    | HReq _ :: hr, (held, p) :: qr -> (if held then ["q" ^ tok_of_n p] else []) @ qtoks hr qr
+    | HReq _ :: hr, (held, p) :: qr ->
+      let here = (if held then [if small cfg then next_p () else "q" ^ tok_of_n p] else []) in
+      here @ qtoks hr qr
     | _ :: hr, _ :: qr -> qtoks hr qr
     | _, _ -> [] in
   let real p = zi p <> 0 in
@@ -82,7 +94,7 @@ let parse_obs db obs =
   List.iter (fun t ->
     let rest = String.sub t 1 (String.length t - 1) in
     match t.[0] with
-    | 'q' -> pend := n_of_tok rest :: !pend
+    | 'q' | 'p' -> pend := n_of_tok rest :: !pend
     | 'X' -> xs := n_of_tok rest :: !xs
     | 'M' -> ms := n_of_tok rest :: !ms
     | 'C' -> incs := (n_of_tok rest, []) :: !incs
@@ -106,7 +118,7 @@ let eval inp obs =
   let hops = List.map hop_of ops in
   if not (well_formed hops) then { default_verdict with model_obs = ["BAD"]; nontrivial = false }
   else begin
-    let mo = obs_of_model cfg db hops in
+    let mo = obs_of_model cfg db hops obs in
     let (_, _, incs, _) = (try parse_obs db mo with _ -> ([], [], [], [])) in
     let resumed = List.exists (fun (_, rs) ->
         List.length (List.sort_uniq compare (List.map (fun x -> zi x.o_tag) rs)) > 1) incs in
